@@ -592,6 +592,9 @@ func c15RoundTrip(ctx *Ctx, v cty.Value, t cty.Type, how string) {
 		return
 	}
 	v2, uo := c15Unmarshal(ctx, b, t)
+	if uo == "ok" && v2.Type().Equals(v.Type()) && !strings.Contains(encTy(v.Type()), "(E ") {
+		c15Same(ctx, v2, v)
+	}
 	switch {
 	case uo == "panic":
 		fail("unmarshal-panic", "Unmarshal panics on Marshal's own output", string(b))
@@ -617,6 +620,17 @@ func c15RoundTrip(ctx *Ctx, v cty.Value, t cty.Type, how string) {
 			ctx.Fail(Failure{Site: "mirror", Sig: "plain-decoding-differs", What: "plain encoding/json decoding of Marshal's output does not mirror the value", Input: in, GoLit: c15GoLit(v, t), Outcome: string(b)})
 		}
 	}
+}
+
+// c15Same: Lean's specification of "equal value" (sameP) against the real RawEquals, on
+// set-free values of one type.
+func c15Same(ctx *Ctx, a, b cty.Value) {
+	eq := false
+	if p, _ := try(func() { eq = a.RawEquals(b) }); p {
+		return
+	}
+	ctx.Add("json.same", encBool(eq), encVal(a), encVal(b))
+	ctx.Tag("same:" + encBool(eq))
 }
 
 func c15Rejects(ctx *Ctx, v cty.Value, t cty.Type) {
@@ -663,6 +677,11 @@ func runC15(ctx *Ctx) {
 		t0 := genTy(r, depth, TyOpts{Dyn: true})
 		v := c15Val(r, t0, depth, c15Opts{Null: true})
 		c15RoundTrip(ctx, v, v.Type(), "own-type")
+		if !strings.Contains(encTy(v.Type()), "(E ") {
+			if w := c15Val(r, v.Type(), depth, c15Opts{Null: true}); w.Type().Equals(v.Type()) {
+				c15Same(ctx, v, w)
+			}
+		}
 		c15RoundTrip(ctx, v, weakenToConstraint(r, v.Type()), "weakened")
 		if i%4 == 0 {
 			c15RoundTrip(ctx, v, cty.DynamicPseudoType, "dynamic")
